@@ -37,6 +37,10 @@ STRENGTH = {
  "C02-i": "names that differ from a pseudo-keyword only by Unicode case folding (U+017F, U+212A, dotless / dotted i), back-quoted in the keyword's place (C01, C02); the normal form of C02 itself now folds ASCII letters only (it used strings.EqualFold and would have shared the defect)",
  "C05-i": "group swaps: runs of 2-3 tokens exchanged with the following run of 1-3 tokens, at every position of every systematic sentence and corpus file (near-miss workload)",
  "C06-i": "C06 also judges every corpus statement and systematic sentence as the second element of a statement list",
+ "C03-j": "error display matrix: 20 erroneous inputs x token separator x last separator x end of input (tab, bare CR, CR LF, VT, FF), and the corpus !bad_ files re-spaced, through every entry point",
+ "C11-j": "all ordered pairs (and a;b;b triples) of a statement pool - G systematic set, corpus, 45 context-sensitive trailing-comma forms - as statement lists",
+ "C13-j": "token length sweep: 17 token / comment / literal shapes x body length 0..300 (thorough 2 100) x 4 fillers x 5 last bytes, with the terminator occurring again later (C13, C14)",
+ "C17-j": "the recording visitor returns a fresh value from every callback and checks which callback produced the value each callback arrives at (Index must arrive at VisitMany's result, Field at Visit's)",
  "C08-i": "value-slot matrix: 94 expression forms (incl. field paths with reserved-word and digit-leading components) in 51 slots where the grammar allows any expression (C01, C02, C08)",
  "C09-i": "open-then-broken family: 22 statements left open (brackets, constructors, look-ahead in progress) x 3 separators x 10 lexically malformed tokens x 3 heads, through the list and single entries (tree workload and C03)",
  "C16-i": "trivia pool: comment bodies made of the characters that open and close comments (`/***/`, `/* c **/`, `/*/*/`, `--/*`, `#*/` ...)",
@@ -75,8 +79,8 @@ STRENGTH = {
 out = []
 out.append("## 11. Seeded changes and kill matrix\n")
 out.append("Every change below was written by a fresh sub-agent that saw only the text of one property and a scratch git\n"
-           "worktree of /repo (nothing from /verif), in nine rounds: (a) free choice, (b) a prescribed area of the code per\n"
-           "property, (c)-(i) \"make it survive generic property-based testing\" with an increasingly detailed description of what such testing does. Each was verified with\n"
+           "worktree of /repo (nothing from /verif), in eleven rounds: (a) free choice, (b) a prescribed area of the code per\n"
+           "property, (c)-(k) \"make it survive generic property-based testing\" with an increasingly detailed description of what such testing does. Each was verified with\n"
            "`tools/mutant_verify.sh` (compiles, unedited suite passes, demonstration fails with the change and passes without)\n"
            "and is kept as `seeded/<name>/{patch.diff, mutant_demo_test.go, MUTANT.md, meta.json}`. \"caught by\" lists the\n"
            "checks whose **quick** command exits 1 on a scratch copy of /repo with the patch applied (`tools/killmatrix.sh`);\n"
